@@ -141,8 +141,43 @@ def check_matrix_cache(prog, ctx, rule):
 
 
 
+def check_pair_arguments(prog, ctx, rule):
+    """Every routine that works on a pair of hats -- the numeric and the analytic scalar product and the overlap key of the cache -- is
+    called as f(points[a], D(a), points[b], D(b)): the support handed in for the second hat is the support expression of the first with
+    the index of the second (`domains[j]` next to `domains[i]`, `list(zip(lower[j], upper[j]))` next to `list(zip(lower[i], upper[i]))`)."""
+    bd = prog.func(DE + ".build_R_matrix_dimension_wise")
+    tm = Terms(bd.node, max_depth=0)
+    n = 0
+    bad = []
+
+    def subst(t, a, b):
+        if t == a:
+            return b
+        if isinstance(t, tuple):
+            return tuple(subst(x, a, b) for x in t)
+        return t
+    for call in [x for x in ast.walk(bd.node) if isinstance(x, ast.Call)]:          # local helper functions of the builder included
+        f_ = call.func
+        if not (isinstance(f_, ast.Attribute) and f_.attr in ("calculate_L2_scalarproduct", "calculate_R_value_analytically", "get_domain_overlap_width")
+                and len(call.args) == 4):
+            continue
+        a0, a1, a2, a3 = [tm.term(x) for x in call.args]
+        if not (a0[0] == "s" and a2[0] == "s" and a0[1] == a2[1]):
+            continue
+        n += 1
+        ia, ib = a0[2], a2[2]
+        if subst(a1, ia, ib) != a3 or (ia != ib and a1 == a3):
+            bad.append(call)
+    ctx.check(not bad, rule, R.key_of(bd, "pair-arguments"), bd.loc(bad[0]) if bad else bd.loc(),
+              "all %d pair routines receive the support of the very hat they receive the point of" % n,
+              "`%s`: the support passed for the second hat is not the support of that hat (it does not follow the index of the second point)"
+              % (src(bad[0])[:110] if bad else ""))
+    return n
+
+
 def run(prog, ctx):
     check_matrix_cache(prog, ctx, "C17.D1")
+    ctx.floor("C17.D1.pairs", check_pair_arguments(prog, ctx, "C17.D1"), 3, "pair routines (scalar products, overlap key) in build_R_matrix_dimension_wise")
     bd = prog.func(DE + ".build_R_matrix_dimension_wise")
     tm = Terms(bd.node, max_depth=0)
     c = cfg_of(bd)
